@@ -69,6 +69,7 @@ def generate(seed, tier):
     # the buffer actually ejecting (default cadence is 10 000 fragments): small cadence, cache radius well above fragment + read length (<= 340)
     api.append({'k': 0, 'radius': w.choice([0, 2, 3]) if method == 'chic' else 0, 'pooling': 1, 'cap': None, 'eject': [w.choice([0, 1, 3, 7]), 1000]})
     api.append({'k': 0, 'radius': 0, 'pooling': w.choice([0, 1]), 'cap': None, 'eject': [w.choice([0, 2, 5]), 1000]})
+    api.append({'k': 0, 'radius': 0, 'pooling': w.choice([0, 1]), 'cap': None, 'reiterate': True})
     s = st.schedule
     nlife = weighted(s, [(1, 2), (2, 4), (3, 3)])
     chain = []
@@ -182,10 +183,18 @@ def _api_layer(case, log, V, probe):
                             r.set_tag('RC', f['dup'].get('RC', 3))
                             r.set_tag('af', 9)
                 yield (r1, r2)
-        ctx = {'layer': 'api', 'method': method, 'k': k, 'radius': radius, 'cap': cap, 'pooling': cfg['pooling'], 'preflag': preflag, 'eject': cfg.get('eject')}
+        ctx = {'layer': 'api', 'method': method, 'k': k, 'radius': radius, 'cap': cap, 'pooling': cfg['pooling'], 'preflag': preflag, 'eject': cfg.get('eject'), 'reiterate': cfg.get('reiterate')}
         try:
-            it = MoleculeIterator(source(), molecule_class=mol_cls, fragment_class=frag_cls, fragment_class_args=fargs, molecule_class_args=margs,
+            src = source()
+            if cfg.get('reiterate'):
+                src = list(src)       # one iterator object, a pass abandoned after two molecules, then the pass that counts
+                probe('api_abandoned_pass_then_full_pass')
+            it = MoleculeIterator(src, molecule_class=mol_cls, fragment_class=frag_cls, fragment_class_args=fargs, molecule_class_args=margs,
                                   pooling_method=cfg['pooling'], yield_invalid=True, yield_overflow=True, perform_qflag=False, **extra_it)
+            if cfg.get('reiterate'):
+                for ii, _m in enumerate(it):
+                    if ii >= 1:
+                        break
             mols = []
             for m in it:
                 m.write_tags()
